@@ -354,7 +354,30 @@ class _Unroll(ast.NodeTransformer):
         self.generic_visit(node)
         return node
 
+    def _split_first(self, node):
+        """[E for a in (x, y) for b in f(a)]  ->  [E[a:=x] for b in f(x)] + [E[a:=y] for b in f(y)]"""
+        if len(node.generators) < 2 or isinstance(node, ast.DictComp):
+            return None
+        g = node.generators[0]
+        if g.ifs or g.is_async:
+            return None
+        binds = self._bindings(g.target, g.iter)
+        if binds is None:
+            return None
+        parts = []
+        for b in binds:
+            rest = [_Subst(b).visit(copy.deepcopy(x)) for x in node.generators[1:]]
+            parts.append(ast.copy_location(ast.ListComp(elt=_Subst(b).visit(copy.deepcopy(node.elt)),
+                                                        generators=rest), node))
+        out = parts[0]
+        for x in parts[1:]:
+            out = ast.copy_location(ast.BinOp(left=out, op=ast.Add(), right=x), node)
+        return out
+
     def visit_ListComp(self, node):
+        sp = self._split_first(node)
+        if sp is not None:
+            return self.visit(sp) if isinstance(sp, ast.ListComp) else self.generic_visit(sp) or sp
         items = self._comp_items(node, [node.elt])
         if items is None:
             self.generic_visit(node)
